@@ -114,6 +114,25 @@ def rule_r2(facts, col, sites):
                     "called again", {})
             continue
         col.ok("C06.R2", base + ":skip", body.where(sw), "work() only behind the false edge of retired[_%d][n]" % vl)
+        # initial state: nobody is retired before the first pass
+        inits = body.defs().get(vl, [])
+        init_ok = None
+        for dbb, si, kind, payload in inits:
+            if kind == "rv":
+                continue
+            t0 = body.term(dbb)
+            q0 = t0["f"].get("q") or ""
+            if q0 == "std::vec::from_elem" and t0["args"]:
+                v0 = peel(body.operand_expr(t0["args"][0]), through_try=False)
+                init_ok = is_const(v0, False)
+                if not init_ok:
+                    col.bad("C06.R2", base + ":init", body.where(dbb),
+                            "the per-block retired flags do not start out all-false (%s): blocks are skipped from the first pass on and "
+                            "run() returns Ok with nothing (or not everything) executed" % show(v0)[:20], {})
+        if init_ok:
+            col.ok("C06.R2", base + ":init", body.where(inits[0][0]), "retired flags start all-false")
+        elif init_ok is None:
+            col.silent("C06.R2", base + ":init", body.where(sw), "initialisation of the retired flags not recognised")
         # stores into the retired vector
         store_blocks = set()
         bad_store = []
